@@ -69,6 +69,21 @@ def populate_zeta_interval(
     rising_jump_threshold_mm_h,
 ):
     """Identify storm and interstorm intervals"""
+    cursor.execute(
+        """
+    SELECT count(*)
+    FROM grid_time
+    JOIN rainfall_intensity
+      ON rainfall_intensity.from_epoch = grid_time.epoch
+      AND grid_time.data_interval = ?
+    JOIN water_level
+      ON rainfall_intensity.from_epoch = water_level.epoch""",
+        (data_interval,),
+    )
+    if cursor.fetchone()[0] == 0:
+        # E.g. only the closing grid time follows the last gap: no
+        # rainfall interval with a water level, nothing to classify
+        return
     classify_interstorms(cursor, data_interval, rising_jump_threshold_mm_h)
     match_all_storms(
         cursor,
